@@ -49,6 +49,63 @@ fn show(items: &[Item], out: &mut String, rng: &mut Rng) {
 	}
 }
 
+/// the canonical spelling of Spec/PatSyntax.v `show`: two-digit uppercase hex, decimal numbers, every item inside braces and
+/// parentheses followed by one space, single spaces between top-level items
+fn show_canon_item(it: &Item, out: &mut String) {
+	match it {
+		Item::Byte(b) => out.push_str(&format!("{:02X}", b)),
+		Item::Str(s) => { out.push('"'); out.push_str(std::str::from_utf8(s).unwrap()); out.push('"'); },
+		Item::Wild(n) => for _ in 0..*n { out.push('?'); },
+		Item::SkipN(n) => out.push_str(&format!("[{}]", n)),
+		Item::Range(a, b) => out.push_str(&format!("[{}-{}]", a, b)),
+		Item::Save => out.push('\''),
+		Item::Read(s, n) => out.push_str(&format!("{}{}", if *s { 'i' } else { 'u' }, n)),
+		Item::Zero => out.push('z'),
+		Item::Align(k) => out.push_str(&format!("@{}", if *k < 10 { (b'0' + k) as char } else { (b'A' + k - 10) as char })),
+		Item::Jump(k, sub, braces) => {
+			out.push(match k { 1 => '%', 4 => '$', _ => '*' });
+			if *braces { out.push_str(" { "); for x in sub { show_canon_item(x, out); out.push(' '); } out.push('}'); }
+			else { for x in sub { out.push(' '); show_canon_item(x, out); } }
+		},
+		Item::Alt(alts) => {
+			out.push_str("( ");
+			for (i, a) in alts.iter().enumerate() { if i > 0 { out.push_str("| "); } for x in a { show_canon_item(x, out); out.push(' '); } }
+			out.push(')');
+		},
+	}
+}
+fn show_canon(items: &[Item]) -> String {
+	let mut out = String::new();
+	for (i, it) in items.iter().enumerate() { if i > 0 { out.push(' '); } show_canon_item(it, &mut out); }
+	out
+}
+/// the AST as a token list for the driver (which rebuilds the Coq `item list` from it)
+fn ast_tokens(items: &[Item], out: &mut Vec<String>) {
+	for it in items {
+		match it {
+			Item::Byte(b) => out.push(format!("B:{}", b)),
+			Item::Str(s) => out.push(format!("S:{}", hex(s))),
+			Item::Wild(n) => out.push(format!("W:{}", n)),
+			Item::SkipN(n) => out.push(format!("K:{}", n)),
+			Item::Range(a, b) => out.push(format!("R:{}:{}", a, b)),
+			Item::Save => out.push("Q".to_string()),
+			Item::Read(s, n) => out.push(format!("I:{}", match (s, n) { (true, 1) => 0, (false, 1) => 1, (true, 2) => 2, (false, 2) => 3, (true, _) => 4, (false, _) => 5 })),
+			Item::Zero => out.push("Z".to_string()),
+			Item::Align(k) => out.push(format!("A:{}", k)),
+			Item::Jump(k, sub, braces) => {
+				let j = match k { 1 => 0, 4 => 1, _ => 2 };
+				if *braces { out.push(format!("U:{}", j)); ast_tokens(sub, out); out.push("V".to_string()); }
+				else { out.push(format!("J:{}", j)); ast_tokens(sub, out); }
+			},
+			Item::Alt(alts) => {
+				out.push("P".to_string());
+				for (i, a) in alts.iter().enumerate() { if i > 0 { out.push("O".to_string()); } ast_tokens(a, out); }
+				out.push("C".to_string());
+			},
+		}
+	}
+}
+
 fn gen_flat(rng: &mut Rng, n: usize, allow_range: bool) -> Vec<Item> {
 	let mut v = Vec::new();
 	for _ in 0..n {
@@ -179,6 +236,16 @@ fn random_text(rng: &mut Rng) -> Vec<u8> {
 fn gen(rng: &mut Rng, _i: u64) -> String {
 	match rng.below(10) {
 		0 | 1 => format!("parse text={}", hex(&random_text(rng))),
+		3 => {
+			// the printer and the intended compiler of Spec/PatSyntax.v against the real parser: an AST, its canonical spelling
+			let mut items = gen_items(rng, 0);
+			if rng.chance(1, 3) { items.extend(gen_flat(rng, 3, true)); }
+			if rng.chance(1, 4) { items.insert(0, Item::Align(rng.below(36) as u8)); }
+			if rng.chance(1, 4) { items.push(Item::Wild(rng.range(250, 600) as u32)); items.push(Item::SkipN(rng.below(16384) as u32)); items.push(Item::Wild(2)); }
+			let mut toks = Vec::new();
+			ast_tokens(&items, &mut toks);
+			format!("syn text={} ast={}", hex(show_canon(&items).as_bytes()), join(&toks, ","))
+		},
 		2 => {
 			// stress shapes: deep nesting, long skips, many saves, adjacent operators
 			let s: String = match rng.below(8) {
@@ -239,16 +306,18 @@ fn gen(rng: &mut Rng, _i: u64) -> String {
 			}
 			let img = Image { len, fill: rng.range(1, 999) as u32, hdr: spec.header_bytes(), pokes: vec![(sec_prd as usize + lay_off, poke)] };
 			let slots = match rng.below(5) { 0 => 0, 1 => 1, 2 => syn.saves.len().saturating_sub(1), _ => syn.saves.len() + rng.below(3) as usize };
-			format!("exec fmt={} file={} {} soh={} soi={} base={} secs={} text={} atoms=- cursor={} slots={} expect={} saves={}",
+			let mut toks = Vec::new();
+			ast_tokens(&items, &mut toks);
+			format!("exec fmt={} file={} {} soh={} soi={} base={} secs={} text={} atoms=- cursor={} slots={} expect={} saves={} ast={}",
 				if pe64 { 64 } else { 32 }, file as u8, img.encode(), spec.soh, spec.soi, image_base, secs_field(&spec.secs), hex(text.as_bytes()),
-				sec_va + lay_off as u32, slots, expect, join(&syn.saves, ","))
+				sec_va + lay_off as u32, slots, expect, join(&syn.saves, ","), join(&toks, ","))
 		},
 	}
 }
 
 fn run(case: &str) -> String {
 	let kind = case.split(' ').next().unwrap();
-	if kind == "parse" {
+	if kind == "parse" || kind == "syn" {
 		let bytes = unhex(field(case, "text"));
 		let text = match std::str::from_utf8(&bytes) { Ok(t) => t, Err(_) => return "!notutf8".to_string() };
 		return match pattern::parse(text) {
